@@ -144,6 +144,7 @@ func ctxToHeaders(ctx freighter.Context) http.Header {
 type clientStream[RQ, RS freighter.Payload] struct {
 	streamCore[RS, RQ]
 	sendClosed bool
+	closed     bool
 }
 
 // Send implements the freighter.ClientStream interface.
@@ -161,6 +162,12 @@ func (s *clientStream[RQ, RS]) Send(req RQ) error {
 func (s *clientStream[RQ, RS]) Receive() (RS, error) {
 	pld, err := s.streamCore.Receive()
 	if err != nil {
+		// Only tear the connection down once; repeated calls keep returning the error the
+		// stream closed with.
+		if s.closed {
+			return pld, err
+		}
+		s.closed = true
 		return pld, errors.Combine(err, s.close())
 	}
 	return pld, nil
